@@ -229,6 +229,7 @@ type Materializer struct {
 	n      int
 	err    error
 	imports map[string]bool
+	tooBig *Term
 }
 
 func (m *Materializer) fail(f string, a ...interface{}) string {
@@ -399,6 +400,7 @@ func (m *Materializer) expr(t *Term, typ types.Type, depth int) string {
 					off = 0
 				}
 			} else {
+				m.tooBig = t
 				return m.fail("slice of length %d (cap %d) too large to replay", ln, cp)
 			}
 		}
@@ -478,6 +480,8 @@ func vcForall[T any](f func(T) bool) bool {
 	switch any(z).(type) {
 	case int:
 		for i := vcReplayQuantLo; i <= vcReplayQuantHi; i++ { if !any(f).(func(int) bool)(i) { return false } }
+	case int32:
+		for i := vcReplayQuantLo; i <= vcReplayQuantHi; i++ { if !any(f).(func(int32) bool)(int32(i)) { return false } }
 	case uint64:
 		for _, i := range vcReplayU64 { if !any(f).(func(uint64) bool)(i) { return false } }
 	case CellID:
@@ -514,7 +518,10 @@ func vcTypeIs[T any](x any) bool { _, ok := x.(T); return ok }
 func vcMod[T any](p *T) {}
 func vcModElems[T any](s []T) {}
 func vcModObj[T any](p *T) {}
+func vcModMap[K comparable, V any](m map[K]V) {}
 func vcLen[T any](s []T) int { return len(s) }
+func vcMapHas[K comparable, V any](m map[K]V, k K) bool { _, ok := m[k]; return ok }
+func vcHeld[T any](mu *T) bool { return false }
 func vcOldGet[T any](k int, witness T) T { return witness }
 func vcOldBind[T any](k int, x T) {}
 var vcReplayReadFailed bool
@@ -544,25 +551,40 @@ func (e *Engine) replayOblig(u *Unit, ob *Oblig) ReplayOutcome {
 	}
 	ct := u.Contract
 	c := u.Ctx
-	ms, st := startSmallModelSession(c, u, u.Assumes[:ob.NAssume], ob.Goal, 60)
-	if ms == nil {
-		ro.Reason = "model session: " + st
-		return ro
-	}
-	defer ms.close()
 	sp := e.pkgs[ct.Dir]
-	m := &Materializer{ms: ms, c: c, pkg: sp.Pkg, objs: map[string]string{}, arrays: map[string]string{}, imports: map[string]bool{}}
+	var m *Materializer
 	var argNames []string
 	var decls []string
-	for _, in := range u.Inputs {
-		ex := m.expr(in.V.T, in.Type, 0)
+	var extra []*Term // slices the model made too long to rebuild: bounded and retried
+	for attempt := 0; ; attempt++ {
+		as := append(append([]*Term{}, u.Assumes[:ob.NAssume]...), extra...)
+		ms, st := startSmallModelSession(c, u, as, ob.Goal, 60)
+		if ms == nil {
+			ro.Reason = "model session: " + st
+			return ro
+		}
+		m = &Materializer{ms: ms, c: c, pkg: sp.Pkg, objs: map[string]string{}, arrays: map[string]string{}, imports: map[string]bool{}}
+		argNames, decls, ro.Inputs = nil, nil, nil
+		for _, in := range u.Inputs {
+			ex := m.expr(in.V.T, in.Type, 0)
+			if m.err != nil {
+				break
+			}
+			decls = append(decls, fmt.Sprintf("var in_%s %s = %s", in.Name, m.typeStr(in.Type), ex))
+			argNames = append(argNames, "in_"+in.Name)
+			ro.Inputs = append(ro.Inputs, fmt.Sprintf("%s = %s", in.Name, ex))
+		}
+		if m.err != nil && m.tooBig != nil && attempt < 8 {
+			extra = append(extra, BVCmp("bvsle", DataField_(m.tooBig, 3), BVLit(8, 64)), BVCmp("bvsle", DataField_(m.tooBig, 1), BVLit(8, 64)))
+			ms.close()
+			continue
+		}
+		defer ms.close()
 		if m.err != nil {
 			ro.Reason = "cannot build input: " + m.err.Error()
 			return ro
 		}
-		decls = append(decls, fmt.Sprintf("var in_%s %s = %s", in.Name, m.typeStr(in.Type), ex))
-		argNames = append(argNames, "in_"+in.Name)
-		ro.Inputs = append(ro.Inputs, fmt.Sprintf("%s = %s", in.Name, ex))
+		break
 	}
 	if len(m.stmts) > 0 {
 		ro.Inputs = append([]string{strings.Join(m.stmts, "; ")}, ro.Inputs...)
@@ -610,6 +632,9 @@ func (e *Engine) replayOblig(u *Unit, ob *Oblig) ReplayOutcome {
 	for _, d := range decls {
 		tb.WriteString("\t" + d + "\n")
 	}
+	if hint := ct.Flags["replay"]; hint != "" {
+		tb.WriteString("\t" + hint + "\n")
+	}
 	tb.WriteString("\tvcReplayU64 = []uint64{0, 1, 2, 3}\n")
 	tb.WriteString("\tdefer func() {\n\t\tif r := recover(); r != nil {\n\t\t\tfmt.Printf(\"VCREPLAY panic: %v\\n\", r)\n\t\t}\n\t}()\n")
 	fmt.Fprintf(&tb, "\t%s(%s)\n", ct.GenName, strings.Join(argNames, ", "))
@@ -643,10 +668,10 @@ func (e *Engine) replayOblig(u *Unit, ob *Oblig) ReplayOutcome {
 	case strings.Contains(ro.Output, "VCREPLAY panic:"):
 		i := strings.Index(ro.Output, "VCREPLAY panic:")
 		ro.Observed = strings.SplitN(ro.Output[i:], "\n", 2)[0]
-		if expectPanic || ob.Kind == "post" || ob.Kind == "pre" {
+		if expectPanic {
 			ro.Confirmed = true
 		} else {
-			ro.Confirmed = true
+			ro.Reason = "the replay panicked before the clause could be evaluated (the model's input is not a usable object graph): " + ro.Observed
 		}
 	case strings.Contains(ro.Output, "panic: test timed out"):
 		ro.Observed = "hang (test timed out after 60s)"
